@@ -574,7 +574,7 @@ def discard_cases(tier, rng):
     out = []
     stmts = [(n, "{p}" + e + "\n") for n, e in DISCARD_EXPRS]
     for bn, bt in DISCARD_BLOCKS:
-        inner = ["'s{a}t'", "[a, 'u{a}']", "f('w{a}', a)", "a < 2"] if tier != "quick" else ["'s{a}t'", "[a, f(1)]"]
+        inner = ["'s{a}t'", "[a, 'u{a}']", "f('w{a}', a)", "a < 2"] if tier != "quick" else ["f('s{a}t', [a])"]
         for k, e in enumerate(inner):
             stmts.append((f"{bn}-{k}", bt.replace("{E}", e)))
     for name, st in stmts:
